@@ -840,9 +840,12 @@ func runStress(c Case) []Event {
 
 // ------------------------------------------------------------------------------------ reorder mode
 
-// The scenario of DESIGN section 8 #15: the receiver does not read; the sender commits one-message
-// sections until a write times out (channel, handler and socket buffers are full), then keeps
-// committing (the resource re-dials); finally the receiver drains.
+// The scenario of DESIGN section 8 #15 (stalled receiver, write time-out, re-dial):
+//  1. the receiver does not read; the sender commits one-message sections until a write (or, for the
+//     transactional flavour, the pre-commit handshake) times out: channel, handler and socket buffers are full;
+//  2. the sender keeps trying (the resource re-dials);
+//  3. receiver and sender alternate (a few reads, a few sends) until the sender has committed Items
+//     further messages;  4. the receiver drains. TLC judges the receiver's sequence.
 func runReorder(c Case) []Event {
 	cr := newCaseRun(c)
 	cr.log(cr.header("reorder"))
@@ -852,31 +855,66 @@ func runReorder(c Case) []Event {
 	r.start()
 	r.do(Cmd{N: r.id, Op: "L"}, watchdog)
 	r.do(Cmd{N: r.id, Op: "C"}, watchdog)
-	fails, after := 0, 0
-	for i := 0; i < c.Sections && after < c.Items; i++ {
+	hang := func(what, res string) []Event {
+		cr.log(Event{"e": "hang", "p": s.id, "what": what + ": " + res})
+		cr.stopAll()
+		return cr.events
+	}
+	send := func() (bool, bool) { // committed, alive
 		res, alive := s.do(Cmd{N: s.id, Op: "W", To: r.id}, watchdog)
 		if !alive {
-			cr.log(Event{"e": "hang", "p": s.id, "what": "reorder write: " + res})
-			cr.stopAll()
-			return cr.events
+			return false, false
 		}
 		if res == "fail" {
-			fails++
-			continue
+			return false, true
 		}
-		if c.Fl == "tcp" {
-			if res, _ = s.do(Cmd{N: s.id, Op: "C"}, watchdog); res != "c" {
-				fails++
-				continue
-			}
+		res, alive = s.do(Cmd{N: s.id, Op: "C"}, watchdog)
+		return res == "c", alive
+	}
+	sent, fails, after := 0, 0, 0
+	for i := 0; i < c.Sections && fails == 0; i++ {
+		ok, alive := send()
+		if !alive {
+			return hang("reorder", "fill")
+		}
+		if ok {
+			sent++
 		} else {
-			s.do(Cmd{N: s.id, Op: "C"}, watchdog)
-		}
-		if fails > 0 {
-			after++
+			fails++
 		}
 	}
-	cr.log(Event{"e": "note", "fails": fails, "after": after})
+	for i := 0; i < 2*c.Items && fails > 0; i++ {
+		ok, alive := send()
+		if !alive {
+			return hang("reorder", "retry")
+		}
+		if ok {
+			after++
+		} else {
+			fails++
+		}
+	}
+	for round := 0; round < 200 && after < 2*c.Items && fails > 0; round++ {
+		for k := 0; k < 3; k++ {
+			if res, alive := r.do(Cmd{N: r.id, Op: "RD"}, watchdog); !alive {
+				return hang("reorder read", res)
+			} else if res != "to" {
+				r.do(Cmd{N: r.id, Op: "C"}, watchdog)
+			}
+		}
+		for k := 0; k < 3; k++ {
+			ok, alive := send()
+			if !alive {
+				return hang("reorder", "alternate")
+			}
+			if ok {
+				after++
+			} else {
+				fails++
+			}
+		}
+	}
+	cr.log(Event{"e": "note", "filled_after": sent, "failed_attempts": fails, "committed_after_first_failure": after})
 	cr.drain(r, 40)
 	cr.stopAll()
 	return cr.events
